@@ -161,7 +161,7 @@ def check_case(case):
     hist = [(h[0], int(h[1])) for h in case["history"].split(",")]
     z = lc.Zygote("plain")
     try:
-        viol, nops, nobs = lc.check_history(kinds, hist, z, variant=VARIANT)
+        viol, nops, nobs = lc.check_history(kinds, hist, z, variant=VARIANT, mixed=bool(case.get("mixed")))
     finally:
         z.close()
     return [(PID + k[3:], w) for k, w, p in viol]
@@ -190,11 +190,11 @@ def _work(job):
                 acc.violation("%s:%s" % (PID, key), what, {"sub": "tla", "kind": list(kind), "ops": ops})
             continue
         _, sub, kinds, hist = j
-        viol, nops, nobs = lc.check_history(kinds, hist, _zyg(), variant=VARIANT)
+        viol, nops, nobs = lc.check_history(kinds, hist, _zyg(), variant=VARIANT, mixed=(sub == "one-object+other-space"))
         acc.add(transitions=nops, traces=1, evaluations=nobs)
         acc.count("leaf_histories:" + sub)
         for key, (what, prefix) in lc.min_violations(viol).items():
-            acc.violation(PID + key[3:], what, {"kinds": [list(k) for k in kinds], "history": prefix})
+            acc.violation(PID + key[3:], what, {"kinds": [list(k) for k in kinds], "history": prefix, "mixed": sub == "one-object+other-space"})
     if lo == 0:
         j = _JOBS[min(len(_JOBS) - 1, 40)]
         if j[0] == "hist":
@@ -202,7 +202,7 @@ def _work(job):
     return acc.pack()
 
 
-def build_jobs(tier, seed0, d1=None, d2=None, two=True):
+def build_jobs(tier, seed0, d1=None, d2=None, two=True, dlm=None):
     jobs, subs = [], []
     d1 = d1 or (5 if tier == "quick" else 7)
     lv, npre = lc.leaves("SINPF", 1, d1)
@@ -217,7 +217,14 @@ def build_jobs(tier, seed0, d1=None, d2=None, two=True):
         jobs += [("hist", "one-object+setup'", (k,), h) for h in lv2]
     subs.append(("one object, alphabet {S,S',I,N,Z=iterate_n(0),P,F} (re-setup with a different script, empty batches): all histories to depth %d (%d) x %d kinds"
                  % (d2, npre2, len(k2)), npre2 * len(k2), len(lv2) * len(k2)))
-    dl = 5 if tier == "quick" else 6
+    dm = dlm or (5 if tier == "quick" else 6)
+    lvm, nprem = lc.leaves("STINF", 1, dm)
+    km = [KINDS[0], KINDS[2], KINDS[5]] if tier == "quick" else KINDS
+    for k in km:
+        jobs += [("hist", "one-object+other-space", (k,), h) for h in lvm]
+    subs.append(("one object, alphabet {S,S',I,N,F} where S' sets up a script on the OTHER space type (grid <-> graph) of the same engine: "
+                 "all histories to depth %d (%d) x %d kinds" % (dm, nprem, len(km)), nprem * len(km), len(lvm) * len(km)))
+    dl = dlm or (5 if tier == "quick" else 6)
     lvl, nprel = lc.leaves("SINFGR", 1, dl)
     kl = [KINDS[0], KINDS[3], KINDS[4]] if tier == "quick" else KINDS
     for k in kl:
@@ -295,7 +302,7 @@ def describe(j):
         return j[1]
     if j[0] == "tla":
         return {"sub": "tla", "kind": list(j[1]), "ops": j[2]}
-    return {"kinds": [list(k) for k in j[2]], "history": lc.hist_str(j[3])}
+    return {"kinds": [list(k) for k in j[2]], "history": lc.hist_str(j[3]), "mixed": j[1] == "one-object+other-space"}
 
 
 def run(ctx):
